@@ -374,7 +374,7 @@ func ruleC02R3(w *World, r *Report) {
 				blk   *ssa.BasicBlock // block of the phi that selects validity
 				ret   *ssa.Return     // when the position comes out of a multi-result helper: the return taken
 				call  *ssa.Call
-				at    *ssa.Store      // when the field is assigned more than once: this assignment
+				at    *ssa.Store // when the field is assigned more than once: this assignment
 			}
 			var ctxs []ctx
 			for _, si := range sites {
